@@ -50,7 +50,12 @@ CHECKS = {
                        {"name": "lp-exh", "suite": "lp", "quick": ["--mode", "exh", "--universe", 1], "thorough": ["--mode", "exh", "--universe", 2]}],
             "assumptions": ["the simplex pivoting / LU code is not modelled: the theorems are about the terminal certificate (legalOptimal) and the standard-form transformation at exact rationals; that the implementation always ends in a legal state is validated per run by recomputing the certificate exactly from the returned basis, not proved",
                             "IEEE-754 rounding is outside the theorems; f64 data enter the model as exact rationals of their bit patterns"]},
-    "C10": {"suites": [{"name": "lower", "suite": "lower", "quick": ["--count", 2500], "thorough": ["--count", 60000]}, API],
+    "C08": {"suites": [{"name": "opt", "suite": "opt", "quick": ["--count", 1500], "thorough": ["--count", 40000]},
+                       {"name": "opt-exh", "suite": "opt", "quick": ["--mode", "exh", "--universe", 1], "thorough": ["--mode", "exh", "--universe", 2]}],
+            "assumptions": FLOAT_ASSUME + ["two inputs of the C08 model are not re-derived but supplied by the harness from the run: the bounds found by ConstraintAwareOptimizer's propagation (PB tokens of op.route / op.entry) and the LP solver's returned status/point (hook H9) for op.lpapply; the construction of the root LP itself (columns, rows, rhs, bounds, objective) is compared bit for bit",
+                                           "the search that follows a declined fast path is C04's subject; the LP solver's own correctness is C09's"]},
+    "C10": {"suites": [{"name": "lower", "suite": "lower", "quick": ["--count", 2500], "thorough": ["--count", 60000]},
+                       {"name": "lower-float", "suite": "lower", "quick": ["--count", 2500, "--float"], "thorough": ["--count", 60000, "--float"]}, API],
             "assumptions": INT_ASSUME + ["lowering model covers integer expression trees over + - * / mod, the six comparisons and and/or/not combinators (Model/Lower.lean); float operands are exercised by the API-level oracle only",
                                          "models whose lowered propagators include kinds outside PK are compared up to the lowering (propagator list), their enumeration is left to the API-level oracle"]},
     "C19": {"suites": [{"name": "gac", "suite": "gac", "quick": ["--count", 2000], "thorough": ["--count", 30000]},
